@@ -267,7 +267,9 @@ def finish(ctx, level, n_disch, checker_cmd, explanation):
             known_hit.append(k)
             continue
         new_violations += 1
-        safe = re.sub(r'[^A-Za-z0-9_.-]+', '_', '%s-%s-%s' % (ctx.prop, v.obligation, v.key))[:150]
+        import hashlib
+        safe = re.sub(r'[^A-Za-z0-9_.-]+', '_', '%s-%s-%s' % (ctx.prop, v.obligation, v.key))[:140] + '-' + \
+            hashlib.sha1(('%s|%s' % (v.obligation, v.key)).encode()).hexdigest()[:8]
         path = os.path.join(rdir, safe + '.json')
         v.path = path
         with open(os.path.join(VERIF, path), 'w') as f:
